@@ -4,6 +4,7 @@ import (
 	"context"
 	"fmt"
 	"math/rand"
+	"reflect"
 	"runtime"
 	"strings"
 	"sync"
@@ -23,6 +24,7 @@ import (
 //	once   (C04) concurrent publishers racing for one Once handler (with every Async/Sequential/filter mix):
 //	             exactly one invocation, not counted afterwards, Wait returns
 //	waiters(C06) several goroutines in Wait at once: all return, and only when nothing is in flight
+//	hooks  (C08) overlapping publishes, and a hook that publishes: every hook exactly once per publish
 //	seq    (C07) Sequential handlers under concurrent publishers and Async dispatch: no overlap, exactly once each,
 //	             publish order per publisher for Async+Sequential
 //
@@ -334,6 +336,63 @@ func stressSeq(r *rand.Rand) string {
 	return ""
 }
 
+// stressHooks (C08): every publish runs each before hook once before its handlers and each after hook once after
+// them – also when publishes overlap in time, and when a hook itself publishes (hooks may call back into the bus)
+type SHook struct{ Pub, N int }
+
+func stressHooks(r *rand.Rand) string {
+	var before, beforeCtx, after, afterCtx, handled atomic.Int64
+	var bus *eb.EventBus
+	nested := r.Intn(2) == 0
+	slow := func() {
+		if r.Intn(2) == 0 {
+			runtime.Gosched()
+		} else {
+			time.Sleep(time.Duration(20+r.Intn(80)) * time.Microsecond)
+		}
+	}
+	var rmu sync.Mutex // r is shared by the hooks
+	bus = eb.New(
+		eb.WithBeforePublish(func(t reflect.Type, e any) {
+			before.Add(1)
+			rmu.Lock()
+			slow()
+			rmu.Unlock()
+			if ev, ok := e.(SHook); ok && nested && ev.N == 0 {
+				eb.Publish(bus, SHook{ev.Pub, 100}) // a hook that publishes: that publish has hooks and handlers too
+			}
+		}),
+		eb.WithBeforePublishContext(func(ctx context.Context, t reflect.Type, e any) { beforeCtx.Add(1) }),
+		eb.WithAfterPublish(func(t reflect.Type, e any) { after.Add(1) }),
+		eb.WithAfterPublishContext(func(ctx context.Context, t reflect.Type, e any) { afterCtx.Add(1) }),
+	)
+	eb.Subscribe(bus, func(e SHook) { handled.Add(1) })
+	G, N := 2+r.Intn(4), 4
+	var wg sync.WaitGroup
+	for p := 0; p < G; p++ {
+		wg.Add(1)
+		go func(p int) {
+			defer wg.Done()
+			for i := 0; i < N; i++ {
+				eb.Publish(bus, SHook{p, i})
+			}
+		}(p)
+	}
+	if !waitTimeout(wg.Wait, 3*time.Second) {
+		return "publishers with hooks do not return"
+	}
+	want := int64(G * N)
+	if nested {
+		want += int64(G) // one nested publish per publisher (from the before hook of its event 0)
+	}
+	for name, got := range map[string]int64{"before": before.Load(), "before(ctx)": beforeCtx.Load(), "after": after.Load(), "after(ctx)": afterCtx.Load(), "handler": handled.Load()} {
+		if got != want {
+			return fmt.Sprintf("%d publishes (%d publishers, hook publishing: %v): the %s hook ran %d times", want, G, nested, name, got)
+		}
+	}
+	return ""
+}
+
 func stressDomain(lines []string) []string {
 	var out []string
 	for _, line := range lines {
@@ -352,6 +411,8 @@ func stressDomain(lines []string) []string {
 			sc = stressWaiters
 		case "seq":
 			sc = stressSeq
+		case "hooks":
+			sc = stressHooks
 		default:
 			out = append(out, "bad-op "+line)
 			continue
